@@ -66,8 +66,18 @@ func RunStream(c StreamCase) (res Result) {
 		return
 	}
 	gens := []random.Rand{g0}
+	var kept [][]byte // the slices Store() returned, kept as they are (not copied)
 	for i, op := range c.Hist {
 		switch op.Op {
+		case "store":
+			kept = append(kept, gens[op.G-1].Store())
+		case "restore":
+			g2, err := random.RestoreChacha20PRG(kept[op.K-1])
+			if err != nil {
+				add("Restore", err.Error())
+				return
+			}
+			gens = append(gens, g2)
 		case "read":
 			buf := make([]byte, op.K)
 			for j := range buf { // the output must not depend on what the buffer held
